@@ -88,6 +88,10 @@ def impl_eval(job):
             t = f(rec["t"])
             r["J"], r["Z"], r["restore"] = {}, {}, []
             r["param_names"] = sorted(m.get_parameter_dictionary().keys())
+            if rec["variant"] == 2:
+                # parameter values with many decimals (relative change 2^-40: far below every tolerance of the comparison with
+                # the analytic derivative) - "leaves the model's parameter values as they were" is exact
+                m.set_params({k: float(v) * (1.0 + 2.0 ** -40) for k, v in m.get_parameter_dictionary().items()})
             if rec["variant"] % 2 == 1:
                 # history (SensZj.NextCall): the same model was analysed before at OTHER parameter values, then
                 # re-parameterised to the record's; every judged call must differentiate at the current values
